@@ -12,9 +12,9 @@ EXTENDS Grid2D, Integers, Sequences, FiniteSets, TLC
 
 CONSTANTS NX, NY, MaxM
 
-VARIABLES nx, ny, nm, file
+VARIABLES stage, nx, ny, nm, file
 
-vars == <<nx, ny, nm, file>>
+vars == <<stage, nx, ny, nm, file>>
 
 Cells(a, b) == (0..(a - 1)) \X (0..(b - 1))
 Tight(act, a, b) ==
@@ -39,14 +39,21 @@ Rows(order, M, flagged) ==
             m == ((r - 1) % M) + 1 IN
         [cell |-> order[q], mbin |-> m, rate |-> RateId(q, m, M), flag |-> IF q \in flagged THEN 0 ELSE 1]]
 
+\* two stages (canonical file first, then re-ordered / flagged variants) so that TLC's workers share the work
 Init ==
     /\ nx \in 1..NX /\ ny \in 1..NY /\ nm \in 1..MaxM
     /\ \E act \in SUBSET Cells(nx, ny) :
          /\ Tight(act, nx, ny)
-         /\ \E order \in Orders(act), flagged \in SUBSET (1..Cardinality(act)) :
-              /\ Cardinality(flagged) <= 1
-              /\ file = Rows(order, nm, flagged)
-Next == UNCHANGED vars
+         /\ file = Rows(SortedSeq(act), nm, {})
+    /\ stage = 0
+FileCells == {file[r].cell : r \in 1..Len(file)}
+Vary ==
+    /\ stage = 0 /\ stage' = 1
+    /\ \E order \in Orders(FileCells), flagged \in SUBSET (1..Cardinality(FileCells)) :
+         /\ Cardinality(flagged) <= 1
+         /\ file' = Rows(order, nm, flagged)
+    /\ UNCHANGED <<nx, ny, nm>>
+Next == Vary
 Spec == Init /\ [][Next]_vars
 
 \* ------------------------------------------------------------------ Load (mirror of load_ascii)
